@@ -5,6 +5,7 @@ import SpecVerif.Proofs.C09
 import Mathlib.Tactic.IntervalCases
 import Mathlib.Tactic.FinCases
 import Mathlib.Tactic.NormNum
+import SpecVerif.Proofs.Lemmas.CRatField
 /-
   C14 — covariance (`arcovar`) and modified covariance (`modcovar`) least-squares AR estimation.
 
@@ -1226,5 +1227,39 @@ example : arcovar ([1, 2, 3, 5] : List ℝ) 1 = some ([-23/14], 3/14) ∧
     norm_num
 
 end SolverExamples
+
+/-! ### instantiation at the executed scalar type `CRat`
+
+`Lemmas/CRatField.lean` makes the Gaussian rationals of the executable model a `Field` / `StarRing` whose
+operations ARE the model's hand-written instances.  The theorems below are the generic theorems of this
+file specialised to `K := CRat` (by plain application — no rewriting): their statements elaborate to the
+model functions applied to the model's own instances (`CRat.instAdd`, `CRat.instMul`, `CRat.instDiv`, …,
+`CRat.instConj`), i.e. to the code that the differential test executes; `conj` is the model's conjugation.
+The `example … := rfl` lines check that the `Field`-path elaboration used by the generic theorems,
+instantiated at `CRat`, is that very function. -/
+section CRatInstantiation
+
+/-- **`arcovar_normalEq` for the executed model** (the model's own Gauss–Jordan solver with its own
+pivot test `instIsZeroCRat`, lawful by `CRat.instLawfulIsZero`): normal equations, error energy,
+energy excess of any other coefficient vector, uniqueness -/
+theorem arcovar_normalEq_CRat (x : List CRat) (p : ℕ) (a : List CRat) (e : CRat)
+    (h : arcovar x p = some (a, e)) :
+    (∀ b, b < p → ∑ t ∈ Ico p x.length, conj (nth x (t - 1 - b)) * fwdErr x p (nth a) t = 0) ∧
+    e = fwdEnergy x p (nth a) ∧
+    (∀ a' : ℕ → CRat, fwdEnergy x p a' = e + ∑ i ∈ range (x.length - p),
+      lsDiff (colR (corrmtx x p .covariance)) p (nth a) a' i
+        * conj (lsDiff (colR (corrmtx x p .covariance)) p (nth a) a' i)) ∧
+    (∀ a' : ℕ → CRat,
+      (∀ b, b < p → ∑ t ∈ Ico p x.length, conj (nth x (t - 1 - b)) * fwdErr x p a' t = 0) →
+        ∀ j, j < p → a' j = nth a j) :=
+  arcovar_normalEq x p a e h
+
+example : (fun (K : Type) [Field K] [StarRing K] [IsZero K] => (arcovar : List K → _)) CRat
+    = @arcovar CRat CRat.instAdd CRat.instSub CRat.instMul CRat.instDiv CRat.instNeg
+        CRat.instOfNatOfNatNat CRat.instConj instIsZeroCRat := rfl
+example : @arcovar CRat CRat.instAdd CRat.instSub CRat.instMul CRat.instDiv CRat.instNeg
+    CRat.instOfNatOfNatNat CRat.instConj instIsZeroCRat = arcovar := rfl
+
+end CRatInstantiation
 
 end SpecVerif.C14
